@@ -7,6 +7,7 @@ import (
 	"context"
 
 	"github.com/cockroachdb/errors"
+	"github.com/mitchellh/mapstructure"
 	"go.etcd.io/etcd/api/v3/mvccpb"
 	clientv3 "go.etcd.io/etcd/client/v3"
 
@@ -159,4 +160,10 @@ func vParse(raw plugintypes.WorkloadResource) *types.WorkloadResource {
 		vAssume(false)
 	}
 	return w
+}
+
+// vEncode turns a typed workload resource into the raw form stored with a
+// workload (the same mapstructure conversion the plugin applies to its answers).
+func vEncode(w *types.WorkloadResource, out *plugintypes.WorkloadResource) error {
+	return mapstructure.Decode(w, out)
 }
